@@ -10,6 +10,7 @@ import (
 
 	"github.com/moov-io/ach"
 
+	"verifharness/internal/gen"
 	"verifharness/internal/rng"
 )
 
@@ -165,6 +166,21 @@ func parseGen(name string) *sample {
 	return genPPD(ns, wide)
 }
 
+// genSample draws a valid file from the shared generator (all SEC codes, IAT, ADV,
+// returns, NOC, addenda, non-ASCII).  Its failures replay from the embedded text.
+func genSample(label string, build func() *ach.File) (s *sample) {
+	defer func() {
+		if r := recover(); r != nil {
+			s = nil
+		}
+	}()
+	f := build()
+	if f == nil {
+		return nil
+	}
+	return fromFile("gen:"+label, f, nil)
+}
+
 // sampleSet returns the files of a tier.  level 0 = quick, 1 = thorough, 2+ = extended search.
 func sampleSet(level int, r *rng.R) []*sample {
 	var out []*sample
@@ -181,7 +197,10 @@ func sampleSet(level int, r *rng.R) []*sample {
 	if level == 0 {
 		add(fixture("test/testdata/iat-debit.ach"))
 		// one more size from the seed so different runs look at different buffer alignments
-		add(genPPD([]int{r.Range(30, 50)}, r.Bool()))
+		add(genPPD([]int{r.Range(45, 58)}, r.Bool())) // at least one mid-stream flush inside writeBatch
+		add(genSample("mixed", func() *ach.File {
+			return gen.File(r.Fork(), gen.Opts{IAT: true, Returns: true, NOC: true, Addenda: true, MaxBatches: 2, MaxEntries: 2})
+		}))
 		return out
 	}
 	for _, rel := range allFixtures() {
@@ -189,10 +208,30 @@ func sampleSet(level int, r *rng.R) []*sample {
 			continue
 		}
 		s := fixture(rel)
-		if s != nil && (len(s.Text) <= 6000 || level >= 2) {
-			add(s)
+		if s == nil || (len(s.Text) > 6000 && level < 2) {
+			continue
 		}
+		// the thorough tier looks at every larger fixture and at a seed-dependent half of
+		// the many one-block (950 byte) fixtures; the extended search takes them all
+		if level < 2 && len(s.Text) <= 950 && (len(rel)+int(rng.Seed()))%2 == 1 {
+			continue
+		}
+		add(s)
 	}
+	secs := gen.AllSECs()
+	for i := 0; i < 6+6*level; i++ {
+		sec := secs[r.Intn(len(secs))]
+		add(genSample(sec, func() *ach.File {
+			return gen.FileOfSEC(r.Fork(), sec, gen.Opts{Returns: true, Addenda: true, NonASCII: i%2 == 0, MaxBatches: 2, MaxEntries: 3})
+		}))
+	}
+	add(genSample("IAT", func() *ach.File {
+		return gen.FileOfSEC(r.Fork(), "IAT", gen.Opts{Addenda: true, MaxBatches: 2, MaxEntries: 2})
+	}))
+	add(genSample("ADV", func() *ach.File { return gen.ADVFile(r.Fork()) }))
+	add(genSample("mixed", func() *ach.File {
+		return gen.File(r.Fork(), gen.Opts{IAT: true, Returns: true, NOC: true, Addenda: true, NonASCII: true, Offset: true})
+	}))
 	add(genPPD([]int{39}, false))
 	add(genPPD([]int{20, 20, 41}, true))
 	add(genPPD([]int{120}, false))
